@@ -683,9 +683,6 @@ class C06(Prop):
         if op[0] == "update_proxy" and what in ("outcome", "view"):
             return "F-C06g"
         # F-C06f: update(mapping, **kw) ignores the mapping: only keys of the mapping are wrong
-        if what == "view" and info.get("lost_writes") and diff and \
-                all(any(under(p, q) for q in info["lost_writes"]) for p in diff):
-            return "F-C06f"
         # F-C06b: write through a held proxy below a section deleted meanwhile -> TypeError in excise()
         if what == "outcome" and info.get("via") is not None and info.get("stale") \
                 and out == {"err": "TypeError"} and op[0] in ("set", "setdefault", "update"):
@@ -693,29 +690,31 @@ class C06(Prop):
         # F-C06e: a held proxy that went stale decided by its own snapshot, not by the live view
         if info.get("via") is not None and info.get("stale") and "snap" in info:
             swant, sevs = info["snap"]
-            lwant, levs = expect_cached = (None, None)
             if what == "outcome" and same_out(out, swant):
                 return "F-C06e"
             if what == "view":
-                # the snapshot decided differently about editing (e.g. setdefault / pop / del)
                 live = expect(self._live_before(case, obs, i), op, out)
                 if same_out(out, swant) and [e[:2] for e in sevs] != [e[:2] for e in live[1]]:
                     return "F-C06e"
-        # ... or an earlier stale decision (an edit made or skipped on the snapshot's say-so) surfaces now
-        if what == "view" and info.get("stale_paths") and diff and \
-                all(any(under(p, q) or under(q, p) for q in info["stale_paths"]) for p in diff):
-            return "F-C06e"
-        # F-C06h: an edit made through the raw dict handed out by get()/setdefault() is lost at the next re-merge
-        if what == "view" and info.get("raw_writes") and diff and \
-                all(any(under(p, q) or under(q, p) for q in info["raw_writes"]) for p in diff):
-            return "F-C06h"
-        # F-C06a: a dict written onto a path where some level has a section with other keys:
-        # every disagreement lies under such a dict-written path
+        # a view disagreement: EVERY path at which the views differ must be explained by a known
+        # mechanism (several may show up in the same step)
         if what == "view" and diff:
-            bad = [pv for pv in info.get("dict_writes", [])
+            bad = [pv[0] for pv in info.get("dict_writes", [])
                    if levels_have_section_with_other_key(case, obs, pv[0], pv[1])]
-            if bad and all(any(under(p, q[0]) for q in bad) for p in diff):
-                return "F-C06a"
+
+            def why(p):
+                if any(under(p, q) for q in info.get("lost_writes", [])):
+                    return "F-C06f"      # update(mapping, **kw) dropped the mapping
+                if any(under(p, q) or under(q, p) for q in info.get("stale_paths", [])):
+                    return "F-C06e"      # an earlier stale decision surfaces
+                if any(under(p, q) or under(q, p) for q in info.get("raw_writes", [])):
+                    return "F-C06h"      # raw-dict edit lost at a re-merge
+                if any(under(p, q) for q in bad):
+                    return "F-C06a"      # dict written onto a section of a lower level
+                return None
+            reasons = [why(p) for p in diff]
+            if all(reasons):
+                return reasons[0]
         return None
 
     def _live_before(self, case, obs, i):
